@@ -192,9 +192,27 @@ pub fn gen_c18(rng: &mut Rng) -> Value {
     let len = vlen(&vals, 0);
     let c0 = json!({"val":0,"algo":algo});
     let c1 = json!({"val":1,"algo":algo});
+    // extractions made while the content is pristine, repeated to the same destinations after the damage
+    let mut repeat_after: Vec<Value> = Vec::new();
+    if rng.chance(1, 4) {
+        let f = flav(rng);
+        let mut pre = vec![
+            json!({"k":"api","op":"hard_link","key":0,"to":"$O/pre-hk"}),
+            json!({"k":"api","op":"hard_link","addr":c0,"to":"$O/pre-ha"}),
+            json!({"k":"api","op":"copy","key":0,"to":"$O/pre-ck"}),
+            json!({"k":"api","op":"copy","addr":c0,"to":"$O/pre-ca"}),
+        ];
+        rng.shuffle(&mut pre);
+        pre.truncate(rng.range(1, 3) as usize);
+        for p in pre.iter_mut() {
+            set_flav(p, f);
+        }
+        steps.extend(pre.clone());
+        repeat_after = pre;
+    }
     match rng.below(12) {
         0..=3 => {} // pristine
-        4 => steps.push(json!({"k":"env","act":"flip","content":c0,"byte":rng.below(len.max(1)),"bit":rng.below(8)})),
+        4 => steps.push(json!({"k":"env","act":"flip","content":c0,"byte":rng.below(len.max(1)),"bit":rng.below(8),"keep_mtime":rng.chance(1,2)})),
         5 => steps.push(json!({"k":"env","act":"truncate","content":c0,"len":rng.below(len.max(1))})),
         6 => steps.push(json!({"k":"env","act":"extend","content":c0,"n":rng.range(1, 70),"seed":3})),
         7 => steps.push(json!({"k":"env","act":"replace_with","content":c0,"target_content":c1})),
@@ -203,6 +221,7 @@ pub fn gen_c18(rng: &mut Rng) -> Value {
         10 => steps.push(json!({"k":"env","act":"delete","content":c0})),
         _ => steps.push(json!({"k":"api","op":"remove_hash","addr":c0,"bin":"sync","mode":"sync"})),
     }
+    steps.extend(repeat_after);
     let ops = ["copy", "copy_unchecked", "hard_link", "hard_link_unchecked", "reflink", "reflink_unchecked"];
     let n = rng.range(3, 10);
     for i in 0..n {
